@@ -139,6 +139,27 @@ class Ctx(object):
         self.opaques[name] = F
         return F
 
+    # ------------------------------------------- transcendental reference
+    def cos(self, x):
+        return ENG.fn_trig('cos', x if isinstance(x, SReal) else SReal(lift(x))) if self.sym else math.cos(x)
+
+    def sin(self, x):
+        return ENG.fn_trig('sin', x if isinstance(x, SReal) else SReal(lift(x))) if self.sym else math.sin(x)
+
+    def pi(self):
+        return ENG.pi() if self.sym else math.pi
+
+    def sqrt(self, x):
+        return ENG.fn_sqrt(x) if self.sym else math.sqrt(x)
+
+    def raises(self, exc, fn, *a, **k):
+        """True iff fn(*a, **k) raises exc (other exceptions propagate)."""
+        try:
+            fn(*a, **k)
+        except exc:
+            return True
+        return False
+
     # ------------------------------------------------------------ requires
     def assume(self, cond, note=''):
         if self.sym:
@@ -355,14 +376,48 @@ def run_symbolic(contract, config, max_paths=2000, budget_s=None, log=None):
                 rec['model'] = path_model
             results.append(rec)
         # side conditions: denominators
+        # side conditions: every division the real code executed must have a
+        # non-zero denominator under the requires (else the result is inf/nan)
         light = [h for h, bk in zip(ENG.hyps, ENG.hyp_bulk) if not bk] + [c for c, _ in ENG.path]
-        dens = list(ENG.denominators.values())
-        for d in dens[:12]:
-            r = discharge.prove(d != 0, light, use_cvc5=False, z3_timeout_ms=1000)
-            if r['status'] != 'proved':
-                denoms_unproved.append(_short(d))
-        for d in dens[12:]:
-            denoms_unproved.append(_short(d))
+        try:
+            nz = discharge.nonzero_factors(light)
+        except Exception:
+            nz = set()
+        seen_den = set()
+        for d in ENG.denominators.values():
+            try:
+                n_, d_ = poly.ratfun(d)
+            except ZeroDivisionError:
+                continue
+            key = poly._pkey(n_)
+            if key in seen_den or poly.p_is_const(n_):
+                continue
+            seen_den.add(key)
+            rec = dict(name='defined/denominator-nonzero#%d' % len(seen_den), path=pinfo['index'], kind='den')
+            r = discharge.prove_nonzero(n_, light, nz)
+            rec.update(r)
+            if rec['status'] != 'proved':
+                rec['detail'] = 'denominator may vanish: ' + _short(d)
+                confirmed = False
+                if rec['status'] == 'refuted' and rec.get('model'):
+                    # a violation only if the real code, run natively on the
+                    # solver's input (requires hold, denominator vanishes),
+                    # breaks a clause of the contract
+                    was = ENG.active
+                    ENG.active = False
+                    try:
+                        st_, info_ = run_native(contract, config, model=rec['model'], tries=1)
+                    finally:
+                        ENG.active = was
+                    if st_ in ('failed', 'crash'):
+                        confirmed = True
+                        rec['model'] = info_.get('inputs')
+                        rec['detail'] += ' ; native run on the solver input: %s' % (info_.get('failures') or info_.get('error'))[:1]
+                if not confirmed:
+                    rec['status'] = 'assumed'
+                    denoms_unproved.append(_short(d))
+            if rec['status'] != 'assumed':
+                results.append(rec)
         paths.append(pinfo)
     return dict(config=_cfg(config), paths=paths, n_paths=n_paths, results=results, gaps=gaps,
                 stubs=sorted(stubs), denominators_assumed_nonzero=sorted(set(denoms_unproved))[:20],
